@@ -93,6 +93,177 @@ theorem replay_faithful (rows : List Row) (huniq : ∀ r ∈ rows, ∀ r' ∈ ro
       · exact Or.inr h1
   · exact hagree
 
+/-- the server after the recorded suffix: it sits in the state the recorded replies lead to, and its cursor on the last row -/
+theorem replay_suffix_srv (rows : List Row) (huniq : ∀ r ∈ rows, ∀ r' ∈ rows, r.id = r'.id → r = r')
+    (h : List Exch) (k : Nat) (st : St) (last : Option Nat)
+    (hrec : ∀ r ∈ record k st h, r ∈ rows)
+    (hlow : ∀ r ∈ rows, r.selected = true → r.id < k → ∃ l, last = some l ∧ r.id ≤ l)
+    (hlast : ∀ l, last = some l → l < k)
+    (hagree : clientStates st h = serverStates st h) :
+    (runSrv rows ⟨st, last⟩ (h.map (·.req))).st = serverFinal st h ∧
+    (h ≠ [] → (runSrv rows ⟨st, last⟩ (h.map (·.req))).last = some (k + h.length - 1)) := by
+  induction h generalizing k st last with
+  | nil => exact ⟨rfl, fun hne => absurd rfl hne⟩
+  | cons x xs ih =>
+    have hstep := replayStep_head rows huniq x xs k st last hrec hlow hlast
+    simp only [List.map_cons, runSrv, hstep, serverFinal]
+    cases xs with
+    | nil => exact ⟨rfl, fun _ => by simp [runSrv]⟩
+    | cons y ys =>
+      rw [clientStates_cons, serverStates_cons] at hagree
+      have htail := (List.cons.inj hagree).2
+      have hst : clientUpdate st x.resp = srvNext st x.resp := by
+        rw [clientStates_cons, serverStates_cons] at htail
+        exact (List.cons.inj htail).1
+      have := ih (k + 1) (srvNext st x.resp) (some k)
+        (by intro r hr; exact hrec r (by rw [record_cons, hst]; simp [hr]))
+        (by intro r _ _ hlt; exact ⟨k, rfl, by omega⟩)
+        (by intro l hl; injection hl with hl; omega)
+        (by rw [← hst]; rw [← hst] at htail; exact htail)
+      refine ⟨this.1, fun _ => ?_⟩
+      rw [this.2 (by simp)]
+      simp only [List.length_cons]
+      congr 1; omega
+
+/-- **C12, restarted scan.** A virtual ECU that has replayed a recorded history to its end - and is back in the default
+    state, as after a reset or an unanswered request - answers the same request sequence a second time with the same
+    replies: the `id <= last` query wraps around to the first row of the recording. -/
+theorem replay_again (rows : List Row) (huniq : ∀ r ∈ rows, ∀ r' ∈ rows, r.id = r'.id → r = r')
+    (h : List Exch) (id0 : Nat)
+    (hrec : ∀ r ∈ record id0 St.default h, r ∈ rows)
+    (hothers : ∀ r ∈ rows, r ∉ record id0 St.default h → r.selected = false)
+    (hagree : Agree h) (hback : serverFinal St.default h = St.default) :
+    replayAll rows {} (h.map (·.req) ++ h.map (·.req)) = h.map (·.resp) ++ h.map (·.resp) := by
+  have hfirst := replay_faithful rows huniq h id0 hrec
+    (fun r hr hn => Or.inl (hothers r hr hn)) hagree
+  rw [replayAll_append, hfirst]
+  congr 1
+  cases h with
+  | nil => rfl
+  | cons x xs =>
+    have hsel : ∀ r ∈ rows, r.selected = true → id0 ≤ r.id ∧ r.id ≤ id0 + (x :: xs).length - 1 := by
+      intro r hr hs
+      by_cases hm : r ∈ record id0 St.default (x :: xs)
+      · have := mem_record hm; omega
+      · have := hothers r hr hm; rw [hs] at this; cases this
+    have hsrv := replay_suffix_srv rows huniq (x :: xs) id0 St.default none hrec
+      (by intro r hr hs hlt; have := (hsel r hr hs).1; omega) (by intro l hl; cases hl) hagree
+    have hs1 : runSrv rows {} ((x :: xs).map (·.req)) = ⟨St.default, some (id0 + (x :: xs).length - 1)⟩ := by
+      have h1 := hsrv.1; have h2 := hsrv.2 (by simp)
+      rw [hback] at h1
+      cases hr : runSrv rows ⟨St.default, none⟩ ((x :: xs).map (·.req)) with
+      | mk st last =>
+        rw [hr] at h1 h2; simp only at h1 h2; subst h1 h2; exact hr
+    show replayAll rows (runSrv rows {} ((x :: xs).map (·.req))) ((x :: xs).map (·.req)) = (x :: xs).map (·.resp)
+    rw [hs1]
+    have hwrap := replayStep_wrap rows huniq x xs id0 St.default (id0 + (x :: xs).length - 1) hrec hsel
+    simp only [List.map_cons, replayAll, hwrap]
+    congr 1
+    cases xs with
+    | nil => rfl
+    | cons y ys =>
+      have hag := hagree
+      unfold Agree at hag
+      rw [clientStates_cons, serverStates_cons] at hag
+      have htail := (List.cons.inj hag).2
+      have hst : clientUpdate St.default x.resp = srvNext St.default x.resp := by
+        rw [clientStates_cons, serverStates_cons] at htail
+        exact (List.cons.inj htail).1
+      rw [← hst]
+      apply replay_suffix rows huniq (y :: ys) (id0 + 1) (clientUpdate St.default x.resp) (some id0)
+      · intro r hr; exact hrec r (by rw [record_cons]; simp [hr])
+      · intro r _ _ hlt; exact ⟨id0, rfl, by omega⟩
+      · intro l hl; injection hl with hl; omega
+      · intro r hr hs hge
+        by_cases hm : r ∈ record id0 St.default (x :: y :: ys)
+        · rw [record_cons, List.mem_cons] at hm
+          rcases hm with rfl | hm
+          · have : id0 + 1 ≤ id0 := hge
+            omega
+          · exact Or.inl hm
+        · have := hothers r hr hm; rw [hs] at this; cases this
+      · have h' := htail; rw [← hst] at h'; exact h'
+
+example : replayAll (record 3 St.default [⟨[0x10, 3], some [0x50, 3, 0, 0x32, 1, 0xF4]⟩, ⟨[0x22, 1, 2], some [0x62, 1, 2, 9]⟩,
+      ⟨[0x11, 1], some [0x51, 1]⟩]) {}
+    [[0x10, 3], [0x22, 1, 2], [0x11, 1], [0x10, 3], [0x22, 1, 2], [0x11, 1]] =
+    [some [0x50, 3, 0, 0x32, 1, 0xF4], some [0x62, 1, 2, 9], some [0x51, 1],
+     some [0x50, 3, 0, 0x32, 1, 0xF4], some [0x62, 1, 2, 9], some [0x51, 1]] := by decide
+
+/-! ### the selector made explicit -/
+
+/-- rows of another ECU name are invisible to a server selected by name -/
+theorem other_name_ignored (sel : Selector) (ri : RunInfo) (n : String) (hs : sel.ecu = some n) (hn : ri.ecuName ≠ some n) :
+    selects sel ri = false := by
+  simp only [selects, hs, Bool.and_eq_false_iff]
+  left
+  cases he : ri.ecuName with
+  | none => rfl
+  | some m =>
+    rw [he] at hn
+    have : m ≠ n := fun h => hn (by rw [h])
+    simp [this]
+
+/-- rows of a run that differs in one requested property are invisible to a server selected by properties -/
+theorem other_props_ignored (sel : Selector) (ri : RunInfo) (ps : List (String × JVal)) (k : String) (v : JVal)
+    (hs : sel.props = some ps) (hmem : (k, v) ∈ ps) (hdiff : ri.extract k ≠ v) : selects sel ri = false := by
+  simp only [selects, hs, Bool.and_eq_false_iff]
+  right
+  rw [List.all_eq_false]
+  refine ⟨(k, v), hmem, ?_⟩
+  unfold propMatches
+  cases v <;> simp_all
+
+/-- a run recorded under the name and with the properties the selector asks for is visible -/
+theorem selects_own (n : String) (ps : List (String × JVal)) (hnn : ∀ kv ∈ ps, kv.2 ≠ .null)
+    (ri : RunInfo) (hname : ri.ecuName = some n) (hps : ∀ kv ∈ ps, ri.extract kv.1 = kv.2) :
+    selects ⟨some n, some ps⟩ ri = true ∧ selects ⟨some n, none⟩ ri = true ∧ selects ⟨none, some ps⟩ ri = true ∧
+    selects ⟨none, none⟩ ri = true := by
+  have hall : ps.all (propMatches ri) = true := by
+    rw [List.all_eq_true]
+    intro kv hkv
+    unfold propMatches
+    have h1 := hps kv hkv
+    have h2 := hnn kv hkv
+    cases hv : kv.2 <;> simp_all
+  simp [selects, hname, hall]
+
+/-- **C12 on a whole database.** The run of ECU `ri` was recorded into rows `id0, id0+1, …` of a database that also holds any
+    number of runs which the selector (ECU name and / or properties) does not select, and later runs of whatever ECU. A virtual ECU
+    started on that database with a selector that selects `ri` replays the recorded replies (silence where none was recorded),
+    provided client and server derive the same state along the history. -/
+theorem replay_faithful_db (sel : Selector) (db : List DbRow) (huniq : ∀ r ∈ db, ∀ r' ∈ db, r.id = r'.id → r = r')
+    (ri : RunInfo) (hsel : selects sel ri = true) (h : List Exch) (id0 : Nat)
+    (hrec : ∀ r ∈ recordDb ri id0 St.default h, r ∈ db)
+    (hothers : ∀ r ∈ db, r ∉ recordDb ri id0 St.default h → selects sel r.run = false ∨ id0 + h.length ≤ r.id)
+    (hagree : Agree h) :
+    replayDb sel db (h.map (·.req)) = h.map (·.resp) := by
+  unfold replayDb
+  apply replay_faithful (db.map (DbRow.view sel)) _ h id0
+  · intro r hr
+    rw [← record_view sel ri hsel] at hr
+    obtain ⟨d, hd, rfl⟩ := List.mem_map.1 hr
+    exact List.mem_map.2 ⟨d, hrec d hd, rfl⟩
+  · intro r hr hn
+    obtain ⟨d, hd, rfl⟩ := List.mem_map.1 hr
+    by_cases hm : d ∈ recordDb ri id0 St.default h
+    · exact absurd (by rw [← record_view sel ri hsel]; exact List.mem_map.2 ⟨d, hm, rfl⟩) hn
+    · exact hothers d hd hm
+  · exact hagree
+  · intro r hr r' hr' hid
+    obtain ⟨d, hd, rfl⟩ := List.mem_map.1 hr
+    obtain ⟨d', hd', rfl⟩ := List.mem_map.1 hr'
+    rw [huniq d hd d' hd' hid]
+
+/-- non-vacuity: two ECUs in one database, selection by name and by a property -/
+example :
+    let a : RunInfo := ⟨some "ECU0", [("vin", .str "VIN0"), ("hw", .num 7)]⟩
+    let b : RunInfo := ⟨some "ECU1", [("vin", .str "VIN1"), ("hw", .num 7)]⟩
+    let db := recordDb b 1 St.default [⟨[0x3E, 0], some [0x7F, 0x3E, 0x11]⟩] ++
+              recordDb a 2 St.default [⟨[0x3E, 0], some [0x7E, 0]⟩, ⟨[0x10, 3], some [0x50, 3, 0, 0x32, 1, 0xF4]⟩]
+    replayDb ⟨some "ECU0", none⟩ db [[0x3E, 0], [0x10, 3]] = [some [0x7E, 0], some [0x50, 3, 0, 0x32, 1, 0xF4]] ∧
+    replayDb ⟨none, some [("vin", .str "VIN1")]⟩ db [[0x3E, 0]] = [some [0x7F, 0x3E, 0x11]] := by decide
+
 /-- repeated identical requests with different answers are replayed in recording order (instance of the above,
     spelled out because it is the case the `id > last` rule exists for) -/
 example : replayAll (record 7 St.default [⟨[0x27, 1], some [0x67, 1, 0xAA]⟩, ⟨[0x27, 1], some [0x67, 1, 0xBB]⟩]) {}
